@@ -12,8 +12,10 @@ def files(variant="main"):
     P = "." + PKG
     out = []
     # types in a file whose base name equals that of a dependency file it uses (google/rpc/status.proto)
-    st = G.new_file("acme/lab/v1/status.proto", PKG, deps=G.STD_DEPS + ["google/rpc/status.proto"])
-    G.add_message(st, "Health", [G.F("last", 1, T.TYPE_MESSAGE, type_name=".google.rpc.Status"), G.F("note", 2, T.TYPE_STRING)])
+    st = G.new_file("acme/lab/v1/status.proto", PKG, deps=G.STD_DEPS + ["google/rpc/status.proto", "google/iam/v1/policy.proto"])
+    # (the Policy field makes the library import google.iam.v1 although IAM is no mixin of the API: the distribution must be a declared dependency)
+    G.add_message(st, "Health", [G.F("last", 1, T.TYPE_MESSAGE, type_name=".google.rpc.Status"), G.F("note", 2, T.TYPE_STRING),
+                                 G.F("policy", 3, T.TYPE_MESSAGE, type_name=".google.iam.v1.Policy")])
     out.append(st)
     # a second file of the package (in the sub-package variant: a file in a proto sub-package with its own types)
     subpkg = PKG + ".extras" if variant == "subpackage" else PKG
@@ -127,12 +129,13 @@ def one_config(name):
     from vf import genlab as G
     from google.rpc import status_pb2
     from google.cloud.location import locations_pb2
+    from google.iam.v1 import policy_pb2
     G.stub_pandoc_if_absent()
     params, yaml_ = CONFIGS[name]
     failures, n = [], 0
     label = {"config": name, "options": params}
     try:
-        api, res = G.generate(files(name if name in ("subpackage", "dup_leaf") else "main"), params, service_yaml=yaml_, extra_dep_modules=(status_pb2, locations_pb2))
+        api, res = G.generate(files(name if name in ("subpackage", "dup_leaf") else "main"), params, service_yaml=yaml_, extra_dep_modules=(status_pb2, locations_pb2, policy_pb2))
     except Exception as e:      # noqa
         return {"cases": 1, "failures": [dict(label, what="generation failed", error=repr(e)[:300], **({"known": "proto-sub-package"} if name == "subpackage" else {}))]}
     names = [f.name for f in res.file]
@@ -155,6 +158,18 @@ def one_config(name):
                 json.loads(f.content)
             except Exception as e:      # noqa
                 failures.append(dict(label, what="emitted JSON does not parse", file=f.name, error=str(e)[:100]))
+    # "imports against the declared runtime dependencies": a distribution whose modules the library imports is declared in setup.py
+    setup_src = next((f.content for f in res.file if f.name == "setup.py"), "")
+    DISTS = {"google.iam.v1": "grpc-google-iam-v1", "google.api_core": "google-api-core", "google.auth": "google-auth", "proto": "proto-plus", "google.protobuf": "protobuf"}
+    imported = set()
+    for f in res.file:
+        if f.name.endswith(".py") and not f.name.startswith(("tests/", "docs/", "samples/", "noxfile", "setup", "scripts/")):
+            for mt in re.finditer(r"^\s*(?:from|import)\s+([A-Za-z_][\w.]*)", f.content, re.M):
+                imported.add(mt.group(1))
+    n += 1
+    for prefix, dist in (DISTS.items() if name != "ads" else ()):
+        if any(i == prefix or i.startswith(prefix + ".") for i in imported) and setup_src and f'"{dist}' not in setup_src and f"'{dist}" not in setup_src:
+            failures.append(dict(label, what="the library imports a distribution that setup.py does not declare", imports=prefix, distribution=dist))
     top = {"overrides": "foo.bar.widgets_v1", "ads": "acme.lab.v1"}.get(name, "acme.lab_v1")
     want_t = set((params.split("transport=")[1].split(",")[0].split("+")) if "transport=" in params else ["grpc"])
     with G.materialised(res) as root:
